@@ -19,6 +19,7 @@ import (
 )
 
 var errInjected = errors.New("verif: injected step failure")
+var errCancelCtx = errors.New("verif: cancel the context before COMMIT")
 
 type event struct {
 	K    string   `json:"k"`           // begin-w begin-r commit rollback end-r stmt set get del list
@@ -54,6 +55,15 @@ func (r *recorder) boundary(what string) error {
 	if r.left > 0 {
 		r.left--
 		return nil
+	}
+	if r.mode == "cancel" {
+		// the context of the transaction is cancelled between its last statement and COMMIT: only meaningful at a
+		// commit boundary (the parent arms it there); anywhere else the step just runs
+		if what != "commit" {
+			return nil
+		}
+		r.fired = true
+		return errCancelCtx
 	}
 	r.fired = true
 	if r.mode == "kill" {
@@ -187,12 +197,20 @@ func (c *dbClient) Write(ctx context.Context, op func(context.Context, db.Transa
 	}
 	c.rec.add(event{K: "begin-w"})
 	committed := false
-	err := c.inner.Write(ctx, func(ctx context.Context, tx db.Transaction) error {
+	// the transaction runs on a context of its own so that it can be cancelled right before COMMIT
+	txCtx, cancel := context.WithCancel(ctx)
+	defer cancel()
+	err := c.inner.Write(txCtx, func(ctx context.Context, tx db.Transaction) error {
 		if err := op(ctx, &txWrap{inner: tx, rec: c.rec}); err != nil {
 			return err
 		}
 		// the commit step: the real COMMIT follows the return of this callback
 		if err := c.rec.boundary("commit"); err != nil {
+			if errors.Is(err, errCancelCtx) {
+				cancel()
+				committed = true
+				return nil
+			}
 			return err
 		}
 		committed = true
